@@ -14,7 +14,8 @@ EXTENDS Naturals, Sequences, FiniteSets, TLC
 
 Targets == {"exec", "inst"}
 FieldsOf(t) == IF t = "exec" THEN {"funds"} ELSE {"funds", "label", "admin"}
-ValuesOf(f) == CASE f = "funds" -> {"0", "1", "2"} [] f = "label" -> {"lbl", "l2"} [] OTHER -> {"adm", "a2"}
+(* (a label / admin with surrounding white space is a value like any other: it is carried as given) *)
+ValuesOf(f) == CASE f = "funds" -> {"0", "1", "2"} [] f = "label" -> {"lbl", " l 2 "} [] OTHER -> {"adm", " a2\t"}
 FinsOf(t) == IF t = "exec" THEN {"build"} ELSE {"build", "build2"}
 Setters(t) == UNION {{[f |-> f, v |-> v] : v \in ValuesOf(f)} : f \in FieldsOf(t)}
 
